@@ -368,6 +368,9 @@ type StreamCase struct {
 	// Late (plain handler only): the handler keeps the requests; the application answers them, in
 	// order, from another goroutine after the reader has moved on to later requests.
 	Late bool `json:"late,omitempty"`
+	// Concurrent (with Late): the kept requests carry distinct hop-by-hop ids and are answered all at
+	// once, each from a goroutine of its own; a recorded write is paired with its request by that id.
+	Concurrent bool `json:"concurrent,omitempty"`
 	// Retry (plain handler only): answers are written with WriteToWithRetry and the transport
 	// fails the first attempt of every write with a temporary error.
 	Retry bool `json:"retry,omitempty"`
@@ -544,7 +547,7 @@ func runStream(c StreamCase) *ev.Failure {
 			time.Sleep(time.Millisecond)
 		}
 		be.WaitParked(waitFor)
-		for _, k := range kept {
+		answer := func(k keptReq) {
 			a := k.m.Answer(k.rc)
 			var err error
 			if c.Retry {
@@ -556,6 +559,20 @@ func runStream(c StreamCase) *ev.Failure {
 				hmu.Lock()
 				herr = append(herr, fmt.Sprintf("writing a late answer: %v", err))
 				hmu.Unlock()
+			}
+		}
+		if c.Concurrent {
+			var wg sync.WaitGroup
+			start := make(chan struct{})
+			for _, k := range kept {
+				wg.Add(1)
+				go func(k keptReq) { defer wg.Done(); <-start; answer(k) }(k)
+			}
+			close(start)
+			wg.Wait()
+		} else {
+			for _, k := range kept {
+				answer(k)
 			}
 		}
 		be.FeedEOF()
@@ -573,10 +590,26 @@ func runStream(c StreamCase) *ev.Failure {
 	if len(writes) != len(reqs) {
 		return ev.Failf("harness-no-answer", "%d requests were delivered and %d writes recorded%s", len(reqs), len(writes), d.text())
 	}
+	byHbH := map[uint32]int{}
+	if late && c.Concurrent {
+		for i, r := range reqs {
+			byHbH[r.HbH] = i
+		}
+	}
+	answered := map[int]bool{}
 	for i, w := range writes {
 		h, err := refcodec.DecodeHeader(w.Data)
 		if err != nil || int(h.Length) != len(w.Data) {
 			return ev.Failf("harness-no-answer", "write %d is not one whole message: %d bytes, header %+v, %v", i, len(w.Data), h, err)
+		}
+		if late && c.Concurrent {
+			// the answers were written at the same time, so their order is free: pair by hop-by-hop id
+			j, ok := byHbH[h.HopByHop]
+			if !ok || answered[j] {
+				return ev.Failf("answer-unpaired", "write %d carries hop-by-hop id %#x: no request, or a second answer to one request%s", i, h.HopByHop, d.text())
+			}
+			answered[j] = true
+			i = j
 		}
 		// state machine: the full mirror as in sm-wire. Plain handler: command, application, R and P only
 		// here - the identifiers and the Result-Code of Answer(rc) are the subject of the "answer" test.
@@ -603,6 +636,21 @@ func genStream(t *rapid.T) StreamCase {
 	if c.SM == nil {
 		c.Late = rapid.IntRange(0, 2).Draw(t, "late-answers") == 0
 		c.Retry = rapid.IntRange(0, 2).Draw(t, "retry-after-temporary-error") == 0
+		if c.Late && !c.Retry && rapid.IntRange(0, 1).Draw(t, "answers-at-once") == 0 {
+			// many answers in flight at once: the requests of the case are repeated over the streams
+			c.Concurrent = true
+			n := rapid.IntRange(8, 96).Draw(t, "in-flight")
+			stride := rapid.IntRange(1, 7).Draw(t, "stride")
+			base := c.Reqs
+			c.Reqs = nil
+			for i := 0; i < n; i++ {
+				r := base[i%len(base)]
+				r.HbH = 0x51000000 + uint32(i)
+				r.Stream = uint16((int(r.Stream) + i/len(base)*stride) % 16)
+				r.Split = 0
+				c.Reqs = append(c.Reqs, r)
+			}
+		}
 	}
 	if rapid.IntRange(0, 3).Draw(t, "write-timeout") == 0 {
 		c.WriteTimeoutMs = rapid.IntRange(1, 50).Draw(t, "write-timeout-ms")
@@ -664,6 +712,9 @@ func classifyStream(c StreamCase) (bool, []string) {
 				cl["zero-id"] = true
 			}
 		}
+		if c.Concurrent {
+			cl["answers-in-flight-at-once"] = true
+		}
 	}
 	nonzero, changes := false, false
 	for i, s := range streams {
@@ -689,9 +740,34 @@ var streamProp = ev.Register(&ev.Prop[StreamCase]{
 	Rule: "an in-memory SCTP association served by diam.NewConn: either 1..6 requests (any request command of dict.Default, generated ids and flags), each on a stream 0..15, whole or in two pieces, answered by a handler " +
 		"with m.Answer(rc) written through WriteTo(conn) or through Serialize + conn.Write; or a server state machine receiving a CER (accepted / rejected) and DWRs, each on its own stream. " +
 		"Demanded: the k-th write recorded by the backend is the answer to the k-th request and carries that request's stream number (state machine: also the mirrored header as in sm-wire). " +
+		"Late answers: the handler keeps the requests and the application answers them afterwards, in order or (8..96 requests with distinct hop-by-hop ids) all at once from a goroutine each; then every request has exactly one answer, paired by that id, on its stream. " +
 		"non-trivial = some request arrives on a stream other than 0",
 	Gen: genStream, Run: runStream, Classify: classifyStream, Attempts: 5,
 })
 
-func TestC16StateMachineWire(t *testing.T) { smProp.Check(t, 2000, 60000) }
-func TestC16Stream(t *testing.T)           { streamProp.Check(t, 300, 10000) }
+// concStreamProp: the stream cases with answers in flight at once only; it also runs under the race detector.
+var concStreamProp = ev.Register(&ev.Prop[StreamCase]{
+	ID: "C16", Name: "stream-concurrent",
+	Rule: "the stream test restricted to its cases with 8..96 late answers written at once, each from its own goroutine, over one in-memory SCTP association (also run with -race). " +
+		"Demanded: every request has exactly one answer, paired by hop-by-hop id, on the request's stream. non-trivial = requests on at least two streams",
+	Gen: func(t *rapid.T) StreamCase {
+		for {
+			if c := genStream(t); c.Concurrent {
+				return c
+			}
+		}
+	},
+	Run: runStream,
+	Classify: func(c StreamCase) (bool, []string) {
+		streams := map[uint16]bool{}
+		for _, r := range c.Reqs {
+			streams[r.Stream] = true
+		}
+		return len(streams) > 1, []string{fmt.Sprintf("streams:%d", len(streams)), fmt.Sprintf("in-flight>=%d", len(c.Reqs)/32*32)}
+	},
+	Attempts: 5,
+})
+
+func TestC16ConcurrentAnswers(t *testing.T) { concStreamProp.Check(t, 150, 6000) }
+func TestC16StateMachineWire(t *testing.T)  { smProp.Check(t, 2000, 60000) }
+func TestC16Stream(t *testing.T)            { streamProp.Check(t, 300, 10000) }
